@@ -145,6 +145,7 @@ func runC09(r *Run) {
 
 	if adv == 7 || st == 5 {
 		rc.Lib.Out().Cap = 4096
+		rc.Lib.Out().HardCap = true
 	}
 	never := time.Duration(-1)
 	type ret struct {
